@@ -211,6 +211,9 @@ def _preserve_units(unit1, unit2=None):
 def _difference_units(unit1, unit2=None):
     if unit1.dimensions is not temperature:
         return _preserve_units(unit1, unit2)
+    if unit2 is not None and not unit1.base_offset and not unit2.base_offset:
+        # no zero-point offset involved (K - mK): an ordinary difference
+        return 1, unit1
 
     s1 = repr(unit1)
     if unit2 is not None and unit2 != unit1:
